@@ -52,8 +52,18 @@ Why(e) == IF e.hi > Len(log) THEN "beyond-the-committed-log"
           ELSE IF ReadOkIn(e, TRUE, e.lo, e.hi) THEN "tombstone-not-marked-deleted"
           ELSE IF ReadOkIn(e, FALSE, 0, e.lo - 1) THEN "index-time-behind-observed-progress"
           ELSE "unexplained"
+\* for a rejected dump taken at one index time: what the reference holds there (with the tombstone marks), so that
+\* the check can name the difference
+ExpDump(e) ==
+  IF e.q.op = "dump" /\ e.lo = e.hi /\ e.hi <= Len(log)
+  THEN LET r == RDump(RefMap(e.x, e.lo)).items IN
+       [i \in 1..Len(r) |-> [k |-> r[i].k, vs |-> [j \in 1..Len(r[i].vs) |->
+           LET it == r[i].vs[j] IN [tx |-> it.tx, vid |-> Ent(it.ptx, it.pk).vid, del |-> it.del, exp |-> it.exp,
+                                    xmd |-> it.xmd, tomb |-> it.tomb]]]]
+  ELSE <<>>
 TRead == /\ IsEvent("Read") /\ UNCHANGED vars
-         /\ bad' = IF Ev.hi <= Len(log) /\ ReadOk(Ev) THEN bad ELSE Append(bad, [line |-> l, why |-> Why(Ev)])
+         /\ bad' = IF Ev.hi <= Len(log) /\ ReadOk(Ev) THEN bad
+                   ELSE Append(bad, [line |-> l, why |-> Why(Ev), exp |-> ExpDump(Ev)])
 
 TraceNext == TReset \/ TCommit \/ TRead
 TraceSpec == TraceInit /\ [][TraceNext]_tvars
